@@ -90,6 +90,7 @@ func allProps() []PropSpec {
 			ID: "C19",
 			Harnesses: []HarnessSpec{
 				{Func: "ZZ_C19_H1", Pkg: "pkg/protocol/http1", Quick: map[string]int{"K": 2, "OPS": 2, "TRUNCK": 1}, Thorough: map[string]int{"K": 2, "OPS": 4, "TRUNCK": 2}, Covers: []string{"reached-assert", "two-handled", "fault-hit", "hijacked"}, MaxSteps: 4000000},
+				{Func: "ZZ_C19_H2", Pkg: "pkg/route", Covers: []string{"reached-assert"}, Note: "engine trace set-up: tracing enabled iff a tracer is registered, at every trace level"},
 			},
 			Assumptions: []string{"in-loop transport (standard.Conn); netpoll's return-to-poller mode is represented only by IdleTimeout == 0", "clock stub: monotonically increasing instants", "at most one injected fault per connection; request templates are concrete"},
 		},
@@ -116,6 +117,10 @@ func allProps() []PropSpec {
 					"(*github.com/cloudwego/hertz/pkg/route.Engine).Shutdown$1":               "lazy",
 					"(*github.com/cloudwego/hertz/pkg/route.Engine).executeOnShutdownHooks$1": "inline",
 				}, Note: "second fixed schedule: the hook goroutine runs only once Shutdown blocks waiting for it; registry / transport steps succeed or fail; all hooks have run when Shutdown returns"},
+				{Func: "ZZ_C18_H4", Pkg: "pkg/route", Covers: []string{"reached-assert", "hook-failed"}, GoPolicy: map[string]string{
+					"(*github.com/cloudwego/hertz/pkg/route.Engine).Shutdown$1":               "inline",
+					"(*github.com/cloudwego/hertz/pkg/route.Engine).executeOnShutdownHooks$1": "inline",
+				}, Note: "status machine around Run: a failing OnRun hook leaves the server not running; Shutdown of a server that is not running reports an error and fires no hook"},
 			},
 			Assumptions: []string{"only the sequential clauses of C18 are decided: the per-request exit check of the keep-alive loop, the Shutdown status machine, and 'hooks run before Shutdown returns' under two fixed schedules of the hook goroutine (as early / as late as possible); listener close, connection accounting in the transports, the wait bound and all other timing/interleaving clauses are outside this technique"},
 		},
@@ -124,7 +129,7 @@ func allProps() []PropSpec {
 			Harnesses: []HarnessSpec{
 				{Func: "ZZ_C06_H1", Pkg: "pkg/route", Quick: map[string]int{"N": 5}, Thorough: map[string]int{"N": 8}, Covers: []string{"reached-assert", "matched-with-param", "no-match"}},
 				{Func: "ZZ_C06_H2", Pkg: "pkg/route", Quick: map[string]int{"R": 2, "N": 3}, Thorough: map[string]int{"R": 3, "N": 3}, Covers: []string{"reached-assert", "matched"}, Note: "two routes with symbolic bytes over {a b / : * p}: tree shapes chosen by the solver; both registration orders"},
-				{Func: "ZZ_C06_H3", Pkg: "pkg/route", Quick: map[string]int{"N": 5}, Thorough: map[string]int{"N": 7}, Covers: []string{"reached-assert", "matched-with-param", "raw-path-with-escape"}, Note: "through Engine.ServeHTTP: symbolic request path over {a b / % 4 1 + x u}; default options and UseRawPath+UnescapePathValues; three route sets with backtracking"},
+				{Func: "ZZ_C06_H3", Pkg: "pkg/route", Quick: map[string]int{"N": 5}, Thorough: map[string]int{"N": 7}, Covers: []string{"reached-assert", "matched-with-param", "raw-path-with-escape", "extra-slash-removed"}, Note: "through Engine.ServeHTTP: symbolic request path over {a b / % 4 1 + x u}; default options and UseRawPath+UnescapePathValues; three route sets with backtracking"},
 			},
 			Assumptions: []string{"route sets: the 12-set catalogue in harness/pkg/route/c06.go, each in every registration order; request paths: '/' + every byte string up to N bytes", "lookup is the real router.find (raw-path unescaping, case-insensitive/trailing-slash redirects are outside)", "reference matcher implements the documented priority rule (DESIGN.md Appendix C)"},
 		},
